@@ -133,6 +133,56 @@ func govcResetPendingRemoval() string {
 	return ""
 }
 
+// govcRemovalCancels: once a key is gone (delayed removal included) or the context is cleared, every instance
+// started for it has a cancelled context and nothing is started for it again.
+func govcRemovalCancels() string {
+	for _, restartInDelay := range []bool{true, false} {
+		var last atomic.Pointer[context.Context]
+		var starts atomic.Int32
+		k := NewKeyed[string, int](func(key string) (Routine, int) {
+			return func(ctx context.Context) error {
+				starts.Add(1)
+				last.Store(&ctx)
+				<-ctx.Done()
+				return nil
+			}, 1
+		}, WithReleaseDelay[string, int](100*time.Millisecond))
+		k.SetContext(context.Background(), false)
+		k.SetKey("a", true)
+		time.Sleep(govcStep)
+		k.RemoveKey("a")
+		if restartInDelay {
+			k.RestartRoutine("a")
+			time.Sleep(govcStep)
+		}
+		time.Sleep(400 * time.Millisecond)
+		if _, ok := k.GetKey("a"); ok {
+			return "RemoveKey(a) with a 100 ms release delay: the key is still present 400 ms later"
+		}
+		n := starts.Load()
+		if p := last.Load(); p != nil && (*p).Err() == nil {
+			return fmt.Sprintf("SetKey(a); RemoveKey(a) with a 100 ms release delay; RestartRoutine(a)=%v inside the delay: after the key is gone the context of its last instance is not cancelled", restartInDelay)
+		}
+		time.Sleep(100 * time.Millisecond)
+		if starts.Load() != n {
+			return "an instance was started for a key after it was removed"
+		}
+	}
+	// ClearContext
+	var last atomic.Pointer[context.Context]
+	k := NewKeyed[string, int](func(key string) (Routine, int) {
+		return func(ctx context.Context) error { last.Store(&ctx); <-ctx.Done(); return nil }, 1
+	})
+	k.SetContext(context.Background(), false)
+	k.SetKey("a", true)
+	time.Sleep(govcStep)
+	k.ClearContext()
+	if p := last.Load(); p != nil && (*p).Err() == nil {
+		return "SetKey(a); ClearContext(): the context of the running instance is not cancelled"
+	}
+	return ""
+}
+
 // govcKeySetModel runs pseudo-random sequences of key-set operations (restricted to the given operations)
 // against the real Keyed and against the key set the property describes, with and without a release delay,
 // with and without a context; it returns the first sequence whose return values or key set differ.
@@ -313,6 +363,8 @@ func TestGovcReplay(t *testing.T) {
 		scenarios = []func() string{govcSetKeyKeepsRetry}
 	case has("pendingkept"):
 		scenarios = []func() string{govcResetPendingRemoval}
+	case has(".X1", ".X2", ".X3", "otherctx", "ownctx", "oldcancelled", "livecancel", "liveinmap", "liverec", "newctx"):
+		scenarios = []func() string{govcRemovalCancels}
 	case has(".E1", "handover", ".H2", ".chain", "go1", ".R1", ".R2"):
 		// hand-over between instances of one key
 		scenarios = []func() string{govcRestartOverlap, govcResetNilCtx}
